@@ -8,6 +8,7 @@ pub mod c04;
 pub mod c05;
 pub mod c06;
 pub mod c07;
+pub mod c08;
 pub mod c09;
 pub mod c10;
 pub mod c11;
@@ -18,6 +19,7 @@ pub mod c15;
 pub mod c16;
 pub mod c18;
 pub mod c19;
+pub mod c20;
 pub mod c17;
 
 macro_rules! props {
@@ -52,6 +54,7 @@ props! {
     "C05" => c05::C05,
     "C06" => c06::C06,
     "C07" => c07::C07,
+    "C08" => c08::C08,
     "C09" => c09::C09,
     "C10" => c10::C10,
     "C11" => c11::C11,
@@ -62,5 +65,6 @@ props! {
     "C16" => c16::C16,
     "C18" => c18::C18,
     "C19" => c19::C19,
+    "C20" => c20::C20,
     "C17" => c17::C17,
 }
